@@ -261,6 +261,20 @@ class Program:
         m = mod_or_cls.mod if isinstance(mod_or_cls, Cls) else mod_or_cls
         return f'{self.rel(m.path)}:{getattr(node, "lineno", "?")}'
 
+    def enclosing_function(self, node):
+        """innermost FunctionDef of the package that contains `node` (None for synthetic nodes)"""
+        m = getattr(self, '_encl', None)
+        if m is None:
+            m = {}
+            for mod in self.mods.values():
+                fns = [n for n in ast.walk(mod.tree) if isinstance(n, ast.FunctionDef)]
+                fns.sort(key=lambda f: (f.lineno, f.col_offset))      # outer functions first, inner ones override
+                for f in fns:
+                    for n in ast.walk(f):
+                        m[id(n)] = f
+            self._encl = m
+        return m.get(id(node))
+
     def stats(self):
         nfun = sum(len(m.functions) for m in self.mods.values())
         nfun += sum(1 for c in self.classes.values() for _ in c.all_functions())
